@@ -55,6 +55,37 @@ BENIGN = [
  ('timer_reset_reordered', 'src/timers/timers.rs', '        self.start = None;\n        self.elapsed = Duration::ZERO;\n        self.subtimers.clear();', '        self.subtimers.clear();\n        self.elapsed = Duration::ZERO;\n        self.start = None;'),
  ('equil_new_clone', D + 'equilibration.rs', '        let d = vec![T::one(); n];\n        let dinv = vec![T::one(); n];', '        let d = vec![T::one(); n];\n        let dinv = d.clone();'),
  ('sparsity_mask_eq_form', 'src/solver/chordal/chordal_info.rs', '        if bi != T::zero() {\n            active[i] = true;\n        }', '        if bi == T::zero() {\n            continue;\n        }\n        active[i] = true;'),
+ ('soc_expandable_size_test', R + 'core/cones/socone.rs', None, None),  # handled specially: size test identical to the allocation test
+ ('tuple_update_vector_own_loop', D + 'data_updating.rs', '        let z = zip(self.0.iter(), self.1.iter());\n        z.update_vector(v, vscale, cscale)',
+  '        let c = cscale.unwrap_or(T::one());\n        for (&idx, &value) in zip(self.0.iter(), self.1.iter()) {\n            if idx >= v.len() {\n                return Err(SparseFormatError::IncompatibleDimension);\n            }\n            v[idx] = value * vscale[idx] * c;\n        }\n        Ok(())'),
+ ('conedims_last_unwrap', D + 'info_print.rs', '        write!(out, "...,{})", nvars[nvars.len() - 1])?;', '        write!(out, "...,{})", nvars.last().unwrap())?;'),
+ ('load_from_reader', D + 'json.rs', '        let mut buffer = String::new();\n        file.read_to_string(&mut buffer)?;\n        let mut json_data: JsonProblemData<T> = serde_json::from_str(&buffer)?;',
+  '        let mut buffer = Vec::new();\n        file.read_to_end(&mut buffer)?;\n        let mut json_data: JsonProblemData<T> = serde_json::from_slice(&buffer)?;'),
+ ('backtrack_early_returns', R + 'core/cones/nonsymmetric_common.rs', '        if is_in_cone_fcn(work) {\n            break;\n        }\n        α *= step;\n        if α < α_min {\n            α = T::zero();\n            break;\n        }\n    }\n    α\n}',
+  '        if is_in_cone_fcn(work) {\n            return α;\n        }\n        α *= step;\n        if α < α_min {\n            return T::zero();\n        }\n    }\n}'),
+ ('pow_barrier_dual_grouped', R + 'core/cones/powcone.rs', '        -arg1.logsafe() - (T::one() - α) * z[0].logsafe() - α * z[1].logsafe()', '        -(arg1.logsafe() + α * z[1].logsafe() + (T::one() - α) * z[0].logsafe())'),
+ ('psd_completion_nth', 'src/solver/chordal/decomp/psd_completion.rs', '        let row_ranges: Vec<_> = cones.rng_cones_iter().collect();\n\n        // loop over just the patterns\n        for pattern in self.spatterns.iter() {\n            let row_range = row_ranges[pattern.orig_index].clone();',
+  '        // loop over just the patterns\n        for pattern in self.spatterns.iter() {\n            let row_range = cones.rng_cones_iter().nth(pattern.orig_index).unwrap();'),
+ ('soc_dense_00_plain', R + 'core/cones/socone.rs', '            Hsblock[0] =\n                (T::SQRT_2() * self.w[0] - T::one()) * (T::SQRT_2() * self.w[0] + T::one());', '            Hsblock[0] = {\n                let t2: T = (2.).as_T();\n                t2 * self.w[0] * self.w[0] - T::one()\n            };'),
+ ('scaling_checkpoint_output_var', R + 'core/solver.rs', '            if is_scaling_success {\n                StrategyCheckpoint::NoUpdate\n            } else {\n                self.info.set_status(SolverStatus::NumericalError);\n                StrategyCheckpoint::Fail\n            }',
+  '            let output;\n            if !is_scaling_success {\n                self.info.set_status(SolverStatus::NumericalError);\n                output = StrategyCheckpoint::Fail;\n            } else {\n                output = StrategyCheckpoint::NoUpdate;\n            }\n            output'),
+ ('genpow_mul_Hs_commuted', R + 'core/cones/genpowcone.rs', '            *y = data.d2 * x - coef_r * r;', '            *y = x * data.d2 - r * coef_r;'),
+ ('composite_rectify_locals', R + 'core/cones/compositecone.rs', '            any_changed |= cone.rectify_equilibration(δi, ei);', '            let changed = cone.rectify_equilibration(δi, ei);\n            any_changed |= changed;'),
+ ('presolver_drop_ge_form', D + 'presolver.rs', '                if b[idx] > infbound {\n                    keep_logical[idx] = false;\n                    mreduced -= 1;\n                }', '                if !(b[idx] <= infbound) {\n                    mreduced -= 1;\n                    keep_logical[idx] = false;\n                }'),
+ ('connect_graph_flag_any', 'src/solver/chordal/chordal_info.rs', '        if !connected {\n            L.set_entry((j + 1, j), T::one());\n        }', '        if connected {\n            continue;\n        }\n        L.set_entry((j + 1, j), T::one());'),
+ ('composite_rectify_skip_zero', R + 'core/cones/compositecone.rs', '            let δi = &mut δ[rng.clone()];\n            let ei = &e[rng.clone()];\n            any_changed |=', '            if matches!(cone, SupportedCone::ZeroCone(_)) {\n                continue;\n            }\n            let δi = &mut δ[rng.clone()];\n            let ei = &e[rng.clone()];\n            any_changed |='),
+ ('json_cost_scaling_folded', D + 'json.rs', '        json_data.P.lrscale(dinv, dinv);\n        json_data.q.hadamard(dinv);\n        json_data.P.scale(c.recip());\n        json_data.q.scale(c.recip());',
+  '        let cinv = c.recip();\n        let dinv_c: Vec<T> = dinv.iter().map(|&di| di * cinv).collect();\n        json_data.P.lrscale(dinv, &dinv_c);\n        json_data.q.hadamard(&dinv_c);'),
+ ('csc_gemvN_commuted', 'src/algebra/csc/matrix_math.rs', '                y[A.rowval[i]] += a * A.nzval[i] * *xj;', '                y[A.rowval[i]] += *xj * (A.nzval[i] * a);'),
+ ('csc_symv_lt_test', 'src/algebra/csc/matrix_math.rs', '                *y.get_unchecked_mut(row) += a * Aij * xcol;\n                if row != col {', '                *y.get_unchecked_mut(row) += a * Aij * xcol;\n                if col != row {'),
+ ('csc_lscale_index_loop', 'src/algebra/csc/matrix_math.rs', '        for (val, row) in zip(&mut self.nzval, &self.rowval) {\n            *val *= l[*row];\n        }', '        for (row, val) in zip(&self.rowval, &mut self.nzval) {\n            *val *= l[*row];\n        }'),
+ ('csc_quadform_commuted', 'src/algebra/csc/matrix_math.rs', '                tmp1 += Mv * x[row];\n                tmp2 += Mv * y[row];', '                tmp2 += y[row] * Mv;\n                tmp1 += x[row] * Mv;'),
+ ('csc_row_sums_swapped_zip', 'src/algebra/csc/matrix_math.rs', '        for (&row, &val) in zip(&self.rowval, &self.nzval) {\n            sums[row] += val;\n        }', '        for (&val, &row) in zip(&self.nzval, &self.rowval) {\n            sums[row] += val;\n        }'),
+ ('nn_ratio_swapped_operands', R + 'core/cones/nonnegativecone.rs', '            if ds[i] < T::zero() {\n                αs = T::min(αs, -s[i] / ds[i]);', '            if T::zero() > ds[i] {\n                αs = T::min(-s[i] / ds[i], αs);'),
+ ('presolver_cursor_local', D + 'presolver.rs', '            // skip this cone\n            idx += numel_cone;', '            // skip this cone\n            idx = idx + numel_cone;'),
+ ('new_collapsed_continue_form', R + 'core/cones/supportedcone.rs', None, None),  # handled specially: `if cone.nvars() == 0 { continue; }`
+ ('clique_purge_iter_mut', 'src/solver/chordal/merge/clique_graph.rs', '        for set in adjacency_table.values_mut() {\n            set.shift_remove(&c_removed);\n        }', '        for (_, set) in adjacency_table.iter_mut() {\n            set.shift_remove(&c_removed);\n        }'),
+ ('reverse_compact_all_sliced', 'src/solver/chordal/decomp/reverse_compact.rs', None, None),  # handled specially: all four vectors viewed through sub-slices
  ('refactor_comment_and_let', 'src/qdldl/qdldl.rs', '        self.is_symbolic = false;\n        _factor(', '        self.is_symbolic = false;\n        let _n = self.D.len();\n        _factor('),
 ]
 
@@ -103,6 +134,20 @@ def special(name, src):
 
 '''
         return src[:a] + new + src[b:]
+    if name == 'new_collapsed_continue_form':
+        a = src.index('            if cone.nvars() != 0 {\n                match cone {')
+        b = src.index('        newcones.shrink_to_fit();', a)
+        body = src[a:b]
+        body = body.replace('            if cone.nvars() != 0 {\n                match cone {', '            if cone.nvars() == 0 {\n                continue;\n            }\n            {\n                match cone {', 1)
+        return src[:a] + body + src[b:]
+    if name == 'reverse_compact_all_sliced':
+        src = src.replace('    let mut counter = 0;\n    for &j in clique_buffer.iter() {\n        for &i in clique_buffer.iter() {\n            if i <= j {\n                let offset = coord_to_upper_triangular_index((i, j));\n                new_s[row_range.start + offset] += old_s[row_ptr + counter];',
+                          '    let new_s = &mut new_s[row_range.clone()];\n    let new_z = &mut new_z[row_range];\n    let old_s = &old_s[row_ptr..];\n    let old_z = &old_z[row_ptr..];\n    let mut counter = 0;\n    for &j in clique_buffer.iter() {\n        for &i in clique_buffer.iter() {\n            if i <= j {\n                let offset = coord_to_upper_triangular_index((i, j));\n                new_s[offset] += old_s[counter];')
+        return src.replace('                new_z[row_range.start + offset] = old_z[row_ptr + counter];', '                new_z[offset] = old_z[counter];')
+    if name == 'soc_expandable_size_test':
+        src = src.replace('    pub fn new(dim: usize) -> Self {\n        const SOC_NO_EXPANSION_MAX_SIZE: usize = 4;\n', '    pub fn new(dim: usize) -> Self {\n')
+        src = src.replace('pub struct SecondOrderConeSparseData<T> {', 'const SOC_NO_EXPANSION_MAX_SIZE: usize = 4;\n\npub struct SecondOrderConeSparseData<T> {', 1)
+        return src.replace('    fn is_sparse_expandable(&self) -> bool {\n        self.sparse_data.is_some()', '    fn is_sparse_expandable(&self) -> bool {\n        self.dim > SOC_NO_EXPANSION_MAX_SIZE')
     raise KeyError(name)
 
 
